@@ -37,6 +37,11 @@ CLAIMED = {
         "For every NUL-free value of up to 4 bytes (5 thorough): dulwich reads back what it writes; git's reader (reference model) reads the same value from what dulwich writes; dulwich reads what git's writer (reference model) produces; subsection names of up to 3 bytes survive escaping and the section-header parser; a ConfigFile with a single- and a multi-valued key survives write_to_file/from_file with order kept; name rules equal git's. Reference models validated against the installed git binary. Three genuine defects found by this check were repaired (fix: commits 8f76b79, f15a11c, 8bfa6ad).",
         "Trusted: z3, ksym, the git reference models (validated against git 2.39.5).",
     ),
+    "C12": (
+        "bounded symbolic exploration of the real tree build/flatten/diff/patch code (ksym): listings are solver-forked; the merge kernel runs on fully symbolic entry names",
+        "For every listing over {a, a.b, a/b, a-, a0, a/b/c, b} with file/executable/gitlink (and symlink) entries: iter_tree_contents(commit_tree(L)) = L, every tree object stores its entries in git's canonical order, tree_lookup_path agrees, conflicting listings are not silently accepted with loss; for every pair of conflict-free listings over {a, a/b, a.b, d/x} and all 8 flag combinations tree_changes(A,B) applied to flatten(A) gives flatten(B) with each path mentioned once, and with path filters a, a/b, d exactly the differing paths at or below the filter are reported; commit_tree_changes(A, changes) equals commit_tree(changed listing) (same id) for every tree over 5 paths and every set/delete change list incl. several new sibling directories; _merge_entries on trees with fully symbolic names returns the strictly increasing merge with matching entries paired (decided by z3 per path). One genuine defect was repaired (15cf714). Rename detection and git diff-tree agreement beyond the reference semantics are not covered.",
+        "Trusted: z3, ksym (incl. the posixpath.join model), MemoryObjectStore as the object container.",
+    ),
     "C13": (
         "bounded symbolic execution of the real graph/walk code (ksym): DAG shapes forked by the solver, commit timestamps symbolic integers, oracle = graph-theoretic reference",
         "For every DAG on up to 4 commits (5 thorough) and every pair of query commits, with commit timestamps as symbolic integers in [-2^40,2^40] (the code only compares/negates them, so all orderings incl. ties, backwards and negative clocks are covered): _find_lcas/find_merge_base return exactly the maximal common ancestors, can_fast_forward(a,b) <=> a is an ancestor of b, independent/find_octopus_base (thorough) are exact; Walker yields exactly the reachable set once each in date and topo order (never a parent before its child), and reachable(include)-reachable(exclude) under monotone clocks. Three genuine defects found by this check were repaired (fix: commits 77392fb, 0225633, 3a70501).",
